@@ -22,19 +22,20 @@ const keyTruncIdx = "index-truncated-below-snapshot"
 const keyTruncDat = "data-truncated-below-index"
 
 type Harness struct {
-	r      *vlib.Run
-	root   string
-	base   *Base
-	ref    *Ref
-	o      *vlib.Oracle
-	nPoint int
-	nChild int
-	traces int
-	mu     sync.Mutex
-	shapes map[string]int
-	curMV  *modelVerdict // the model's prediction for the crash point being judged (model-compared workloads, client mode)
-	curLib string        // miss3.go libExpect of the directory being judged (library mode): "" = not computed
+	r       *vlib.Run
+	root    string
+	base    *Base
+	ref     *Ref
+	o       *vlib.Oracle
+	nPoint  int
+	nChild  int
+	traces  int
+	mu      sync.Mutex
+	shapes  map[string]int
+	curMV   *modelVerdict // the model's prediction for the crash point being judged (model-compared workloads, client mode)
+	curLib  string        // miss3.go libExpect of the directory being judged (library mode): "" = not computed
 	lockAns map[string]string
+	idxAns  map[string]string // miss4.go: answers of the oracle op idx (many captures hold the same index)
 }
 
 func (h *Harness) explanation() string {
@@ -81,15 +82,28 @@ func (h *Harness) run() {
 	}
 	ws = append(ws, wideWorkloads(r, r.Rng.Fork())...)
 	ws = append(ws, missWorkloads(r, r.Rng.Fork())...)
+	ws = append(ws, miss4Workloads(r, r.Rng.Fork())...)
 	exhaustive := true
+	// pipeline: phase A of the next workloads runs while the fresh processes of the previous ones are alive (at most pipeDepth
+	// workloads in flight: their captured directories are on disk at the same time)
+	pend := make(chan *pending, pipeDepth)
+	done := make(chan bool)
+	go func() {
+		for p := range pend {
+			if !h.phaseB(p) {
+				exhaustive = false
+			}
+		}
+		done <- true
+	}()
 	for _, w := range ws {
-		if o := os.Getenv("C07_ONLY"); o != "" && o != w.Name {
+		if o := os.Getenv("C07_ONLY"); o != "" && !onlyMatches(o, w.Name) {
 			continue
 		}
-		if !h.doWorkload(w, 0, "", "") {
-			exhaustive = false
-		}
+		pend <- h.phaseA(w, 0, "", "")
 	}
+	close(pend)
+	<-done
 	r.Extra["exhaustive"] = exhaustive
 	r.Extra["crash_points_enumerated"] = h.nPoint
 	r.Extra["fresh_process_reopens"] = h.nChild
@@ -97,19 +111,68 @@ func (h *Harness) run() {
 	r.Extra["workload_shapes"] = h.shapes
 }
 
+const pipeDepth = 6
+
+func onlyMatches(sel, name string) bool {
+	for _, s := range strings.Split(sel, ",") {
+		if s == name || (strings.HasSuffix(s, "*") && strings.HasPrefix(name, strings.TrimSuffix(s, "*"))) {
+			return true
+		}
+	}
+	return false
+}
+
+// One workload is evaluated in two phases so that several workloads are in flight at a time (the fresh processes of workload i
+// run while workload i+1 is being driven in this process):
+//
+//	phase A (main goroutine, one workload at a time: the real chain code runs in-process with process-wide hooks and settings):
+//	        run the workload, capture every crash point, look at the captured files BEFORE any child changes them, take the
+//	        private copies (library mode, second-crash cases) and START the fresh processes (process-wide pool childSem)
+//	phase B (judge goroutine, workloads in their order; the only user of the oracle and the only source of violations / samples,
+//	        so that the report does not depend on scheduling): model load + trace tie, judge every report, second-crash cases,
+//	        clean restarts, truncations
+type job struct {
+	hit  Hit
+	mode string
+	res  *ChildRes
+}
+
+type pending struct {
+	w                    Workload
+	wr                   *WlRun
+	only                 int
+	onlyMode, onlySecond string
+	t0                   time.Time
+	tRun                 time.Duration
+	early                func() bool // phase A ended early: what phase B has to report
+	blocksFile           string
+	env                  []string
+	modes                []string
+	libx                 map[int]string
+	lockHad              map[int]bool
+	idx                  map[int][]idxRecord // blockchain.new of every capture, read before any child touches it (miss4.go)
+	jobs                 []*job
+	s2                   []*s2case
+	deferred             []func() // violations found in phase A, emitted at the start of phase B
+	trunc                *truncSet
+	clean                *cleanJob
+	closed               []*closedJob
+	wg                   sync.WaitGroup // every fresh process started for this workload in phase A
+}
+
 // doWorkload runs one workload, enumerates all its crash points (or just `only`), returns true if every
 // point of the workload was captured and evaluated.
 func (h *Harness) doWorkload(w Workload, only int, onlyMode string, onlySecond string) bool {
+	return h.phaseB(h.phaseA(w, only, onlyMode, onlySecond))
+}
+
+func (h *Harness) phaseA(w Workload, only int, onlyMode string, onlySecond string) *pending {
 	r := h.r
-	t0 := time.Now()
+	p := &pending{w: w, only: only, onlyMode: onlyMode, onlySecond: onlySecond, t0: time.Now(), env: childEnvOf(w)}
 	wr := runWorkload(h.root, h.base, w, only)
-	tRun := time.Since(t0)
-	if os.Getenv("C07_TIMES") != "" {
-		defer func() { fmt.Fprintln(diag, "C07_TIMES", w.Name, "run", tRun, "total", time.Since(t0)) }()
-	}
-	if os.Getenv("C07_KEEP") == "" {
-		defer os.RemoveAll(h.root + "/" + w.Name)
-	} else {
+	p.wr = wr
+	p.tRun = time.Since(p.t0)
+	if os.Getenv("C07_KEEP") != "" {
 		fmt.Fprintln(diag, "C07_KEEP:", h.root+"/"+w.Name, wr.Results)
 	}
 	if os.Getenv("C07_DEBUG") != "" {
@@ -119,38 +182,153 @@ func (h *Harness) doWorkload(w Workload, only int, onlyMode string, onlySecond s
 		fmt.Fprintln(diag, "C07_DEBUG results", wr.Results, wr.Err)
 	}
 	rep := func(hit int, mode string) Case { return Case{Workload: w.Name, Hit: hit, Mode: mode} }
+	if wr.Err != "" && wr.RestartDiff != "" {
+		p.early = func() bool {
+			r.Eval("clean-restart/"+w.Shape, w.Name+"|in-history")
+			r.PropFail("clean-restart-differs:"+w.Shape, fmt.Sprintf("workload %s: %s (the chain had been closed cleanly: Chain.Close returned and the lock file was removed)", w.Name, wr.Err),
+				map[string]interface{}{"case": rep(0, "closed:none"), "ops": w.Ops, "results": wr.Results})
+			return false
+		}
+		return p
+	}
 	if wr.Err != "" && wr.RestartPanic != "" {
-		r.Eval("clean-restart/"+w.Shape, w.Name+"|in-history")
-		r.PropFail("clean-restart-fails:"+w.Shape, fmt.Sprintf("workload %s: %s (the chain had been closed cleanly: Chain.Close returned and the lock file was removed)", w.Name, wr.Err),
-			map[string]interface{}{"case": rep(0, "closed:none"), "ops": w.Ops, "results": wr.Results})
-		return false
+		p.early = func() bool {
+			r.Eval("clean-restart/"+w.Shape, w.Name+"|in-history")
+			r.PropFail("clean-restart-fails:"+w.Shape, fmt.Sprintf("workload %s: %s (the chain had been closed cleanly: Chain.Close returned and the lock file was removed)", w.Name, wr.Err),
+				map[string]interface{}{"case": rep(0, "closed:none"), "ops": w.Ops, "results": wr.Results})
+			return false
+		}
+		return p
 	}
 	if wr.Err != "" {
-		r.TieFail("workload-run:"+w.Name, "the workload could not be run as scripted on the real code: "+wr.Err, map[string]interface{}{"case": rep(0, ""), "results": wr.Results})
-		return false
+		p.early = func() bool {
+			r.TieFail("workload-run:"+w.Name, "the workload could not be run as scripted on the real code: "+wr.Err, map[string]interface{}{"case": rep(0, ""), "results": wr.Results})
+			return false
+		}
+		return p
 	}
 	if len(wr.Stuck) > 0 {
-		r.TieFail("workload-stuck:"+w.Name, fmt.Sprintf("workload %s made no progress for 8 s while a paced snapshot (writing-time target 1 h) was waiting - an operation that aborts the snapshot in the model waits for it on the real code? stuck at %s; the harness released the snapshot with HurryUp and went on", w.Name, strings.Join(wr.Stuck, ", ")),
-			map[string]interface{}{"case": rep(0, ""), "results": wr.Results, "ops": w.Ops})
+		p.deferred = append(p.deferred, func() {
+			r.TieFail("workload-stuck:"+w.Name, fmt.Sprintf("workload %s made no progress for 8 s while a paced snapshot (writing-time target 1 h) was waiting - an operation that aborts the snapshot in the model waits for it on the real code? stuck at %s; the harness released the snapshot with HurryUp and went on", w.Name, strings.Join(wr.Stuck, ", ")),
+				map[string]interface{}{"case": rep(0, ""), "results": wr.Results, "ops": w.Ops})
+		})
 	}
 	if wr.Final == nil {
-		r.PropFail("workload-panic:"+w.Name, "the uninterrupted run itself failed: "+strings.Join(wr.Results, "; "), map[string]interface{}{"case": rep(0, "")})
-		return false
+		p.early = func() bool {
+			r.PropFail("workload-panic:"+w.Name, "the uninterrupted run itself failed: "+strings.Join(wr.Results, "; "), map[string]interface{}{"case": rep(0, "")})
+			return false
+		}
+		return p
 	}
-	h.shapes[w.Shape]++
 	for _, raw := range wr.Blocks {
 		h.ref.add(raw)
 	}
+	p.blocksFile = h.root + "/" + w.Name + "/blocks.bin"
+	writeBlocksFile(p.blocksFile, feedBlocks(w, wr))
+
+	// ---- every crash point -> fresh process
+	p.modes = []string{"client"}
+	if r.Thorough() || only != 0 || w.Lib {
+		p.modes = append(p.modes, "library")
+	}
+	h.snapFileTie(p)
+	// what the unchanged tail of NewChainExt does with each captured directory, computed from the files BEFORE any child touches them
+	p.libx = map[int]string{}
+	p.lockHad = map[int]bool{}
+	p.idx = map[int][]idxRecord{}
+	for _, ht := range wr.Hits {
+		if replaySelects(ht, only) && !ht.NoCopy {
+			dir := fmt.Sprintf("%s/%04d/", wr.Snaps, ht.N)
+			v := h.viewOf(dir)
+			p.lockHad[ht.N] = v.lockHas
+			if len(p.modes) > 1 {
+				p.libx[ht.N] = h.libExpect(v)
+			}
+			if w.Wide != "bulk" {
+				if recs, ok := readIdx(dir + "blockchain.new"); ok {
+					p.idx[ht.N] = recs
+				}
+			}
+		}
+	}
+	for _, ht := range wr.Hits {
+		if !replaySelects(ht, only) || ht.NoCopy {
+			continue
+		}
+		for _, m := range p.modes {
+			if onlyMode != "" && m != onlyMode {
+				continue
+			}
+			if m == "library" && w.BulkN > maxBlocksToWrite && only == 0 && len(p.jobs)%8 != 1 {
+				continue // deep-recovery: library mode at every fourth capture (bulk.go)
+			}
+			p.jobs = append(p.jobs, &job{hit: ht, mode: m})
+		}
+	}
+	// second-crash cases get their own copies, taken BEFORE any child starts to modify the capture
+	p.s2 = h.stage2Select(w, wr, only, onlySecond)
+	if onlyMode == "clean" {
+		p.s2 = nil // replay of a clean-restart case: only cleanRestart below
+	}
+	// the library-mode child gets its own copy, taken BEFORE any child starts to modify the capture
+	for _, j := range p.jobs {
+		if j.mode == "library" {
+			copyTree(fmt.Sprintf("%s/%04d/", wr.Snaps, j.hit.N), fmt.Sprintf("%s/%04d-lib/", wr.Snaps, j.hit.N))
+		}
+	}
+	// the directories of the later stages of phase B are copied now as well: the children started below change the captures, and
+	// the next workload's phase A must not wait for them
+	for _, j := range p.jobs {
+		p.wg.Add(1)
+		go func(j *job) {
+			defer p.wg.Done()
+			dir := fmt.Sprintf("%s/%04d/", wr.Snaps, j.hit.N)
+			if j.mode == "library" {
+				dir = fmt.Sprintf("%s/%04d-lib/", wr.Snaps, j.hit.N)
+			}
+			j.res = runChild(p.env, j.mode, dir, p.blocksFile)
+		}(j)
+	}
+	h.stage2Start(p)
+	if w.Wide != "" && (only == 0 || onlyMode == "clean") {
+		h.cleanStart(p)
+	}
+	if only == 0 && (onlyMode == "" || strings.HasPrefix(onlyMode, "closed")) {
+		h.closedStart(p)
+	}
+	if only == 0 && w.Wide == "" && (r.Thorough() || r.Replay != "" || w.Name == "extend" || w.Name == "reorg-after-save" || w.Name == "gen0") {
+		h.truncStart(p)
+	}
+	return p
+}
+
+func (h *Harness) phaseB(p *pending) bool {
+	r := h.r
+	w, wr, only, onlyMode, onlySecond := p.w, p.wr, p.only, p.onlyMode, p.onlySecond
+	if os.Getenv("C07_TIMES") != "" {
+		defer func() { fmt.Fprintln(diag, "C07_TIMES", w.Name, "run", p.tRun, "total", time.Since(p.t0)) }()
+	}
+	if os.Getenv("C07_KEEP") == "" {
+		defer os.RemoveAll(h.root + "/" + w.Name)
+	}
+	if p.early != nil {
+		p.wg.Wait()
+		return p.early()
+	}
+	for _, f := range p.deferred {
+		f()
+	}
+	rep := func(hit int, mode string) Case { return Case{Workload: w.Name, Hit: hit, Mode: mode} }
+	h.shapes[w.Shape]++
 	// the uninterrupted run must itself agree with the independent replay
 	if d := h.ref.dumpHash(wr.Final.Tip); d != wr.Final.Dump {
 		r.PropFail("uninterrupted-utxo:"+w.Shape, fmt.Sprintf("workload %s: uninterrupted run ends at tip %s with UTXO dump %s, independent replay of that chain gives %s", w.Name, wr.Final.Tip[:16], wr.Final.Dump, d),
 			map[string]interface{}{"case": rep(0, ""), "results": wr.Results})
 	}
-	blocksFile := h.root + "/" + w.Name + "/blocks.bin"
-	writeBlocksFile(blocksFile, feedBlocks(w, wr))
-	setChildEnv(w)
-	defer setChildEnv(Workload{})
+	blocksFile := p.blocksFile
 	h.wideCounters(w, wr)
+	h.idxTie(p)
+	h.closeTie(p)
 
 	// ---- tie (a): point names vs model labels; model queries are answered for this workload until the next load
 	modelOK := false
@@ -161,71 +339,9 @@ func (h *Harness) doWorkload(w Workload, only int, onlyMode string, onlySecond s
 			modelOK = h.compareTrace(w, wr, mdl)
 		}
 	}
-
-	// ---- every crash point -> fresh process
-	modes := []string{"client"}
-	if r.Thorough() || only != 0 || w.Lib {
-		modes = append(modes, "library")
-	}
-	h.snapFileTie(w, wr)
-	// what the unchanged tail of NewChainExt does with each captured directory, computed from the files BEFORE any child touches them
-	libx := map[int]string{}
-	lockHad := map[int]bool{}
-	for _, ht := range wr.Hits {
-		if replaySelects(ht, only) && !ht.NoCopy {
-			v := h.viewOf(fmt.Sprintf("%s/%04d/", wr.Snaps, ht.N))
-			lockHad[ht.N] = v.lockHas
-			if len(modes) > 1 {
-				libx[ht.N] = h.libExpect(v)
-			}
-		}
-	}
-	type job struct {
-		hit  Hit
-		mode string
-		res  *ChildRes
-	}
-	var jobs []*job
-	for _, ht := range wr.Hits {
-		if !replaySelects(ht, only) || ht.NoCopy {
-			continue
-		}
-		for _, m := range modes {
-			if onlyMode != "" && m != onlyMode {
-				continue
-			}
-			jobs = append(jobs, &job{hit: ht, mode: m})
-		}
-	}
-	// second-crash cases get their own copies, taken BEFORE any child starts to modify the capture
-	s2 := h.stage2Select(w, wr, only, onlySecond)
-	if onlyMode == "clean" {
-		s2 = nil // replay of a clean-restart case: only cleanRestart below
-	}
-	// the library-mode child gets its own copy, taken BEFORE any child starts to modify the capture
-	for _, j := range jobs {
-		if j.mode == "library" {
-			copyTree(fmt.Sprintf("%s/%04d/", wr.Snaps, j.hit.N), fmt.Sprintf("%s/%04d-lib/", wr.Snaps, j.hit.N))
-		}
-	}
-	var wg sync.WaitGroup
-	sem := make(chan bool, 12)
-	for _, j := range jobs {
-		wg.Add(1)
-		sem <- true
-		go func(j *job) {
-			defer wg.Done()
-			dir := fmt.Sprintf("%s/%04d/", wr.Snaps, j.hit.N)
-			if j.mode == "library" {
-				dir = fmt.Sprintf("%s/%04d-lib/", wr.Snaps, j.hit.N)
-			}
-			j.res = runChild(j.mode, dir, blocksFile)
-			<-sem
-		}(j)
-	}
-	wg.Wait()
+	p.wg.Wait()
 	complete := true
-	for _, j := range jobs {
+	for _, j := range p.jobs {
 		h.nChild++
 		if j.mode == "client" {
 			h.nPoint++
@@ -241,7 +357,7 @@ func (h *Harness) doWorkload(w Workload, only int, onlyMode string, onlySecond s
 		}
 		h.curLib = ""
 		if j.mode == "library" {
-			h.curLib = libx[j.hit.N]
+			h.curLib = p.libx[j.hit.N]
 			r.Hit("library-tail-expected:" + h.curLib)
 		}
 		ok := h.judge(w, wr, j.hit, j.mode, j.res)
@@ -250,7 +366,8 @@ func (h *Harness) doWorkload(w Workload, only int, onlyMode string, onlySecond s
 			h.libTie(w, wr, mdl, j.hit, j.res)
 		}
 		if j.mode == "client" {
-			h.lockTie(w, j.hit, lockHad[j.hit.N], j.res)
+			h.lockTie(w, j.hit, p.lockHad[j.hit.N], j.res)
+			h.loadTie(p, j)
 		}
 		// the model must predict the recovered state ALSO where the property fails (F8: same wrong coin set), and a child
 		// that reported no state (panic / died) must be a panic of the model too
@@ -266,20 +383,15 @@ func (h *Harness) doWorkload(w Workload, only int, onlyMode string, onlySecond s
 				"reopened_height": hOf(j.res.S1), "recovered_height": hOf(j.res.S2), "final_height": hOf(j.res.S3)})
 		}
 	}
-	h.stage2Run(w, wr, blocksFile, s2, onlySecond)
-	if w.Wide != "" && (only == 0 || onlyMode == "clean") {
-		h.cleanRestart(w, wr, blocksFile)
+	h.stage2Run(p)
+	h.cleanRestart(p)
+	h.closedRestarts(p)
+	var tm *Model
+	if modelOK {
+		tm = mdl
 	}
-	if only == 0 && (onlyMode == "" || strings.HasPrefix(onlyMode, "closed")) {
-		h.closedRestarts(w, wr, blocksFile)
-	}
-	if only == 0 && w.Wide == "" && (r.Thorough() || r.Replay != "" || w.Name == "extend" || w.Name == "reorg-after-save" || w.Name == "gen0") {
-		var tm *Model
-		if modelOK {
-			tm = mdl
-		}
-		h.truncations(w, wr, blocksFile, tm)
-	}
+	h.truncations(p, tm)
+	_, _, _, _ = onlySecond, blocksFile, only, onlyMode
 	return complete
 }
 
@@ -319,7 +431,7 @@ func (h *Harness) judge2(w Workload, wr *WlRun, ht Hit, mode string, c *ChildRes
 		// highest block known at the crash instant
 		best, bh := "", uint32(0)
 		for i := 0; i < ht.NSub && i < len(wr.Names); i++ {
-			if b := h.ref.blocks[wr.Hash[wr.Names[i]]]; b != nil && b.height > bh {
+			if b := h.ref.blk(wr.Hash[wr.Names[i]]); b != nil && b.height > bh {
 				best, bh = b.hash, b.height
 			}
 		}
@@ -438,6 +550,10 @@ type s2case struct {
 	idx0  []byte // blockchain.new of the first capture (after the optional cut), read before the restart touches it
 	dat0  int64  // length of the current data file at that moment
 	datFn string
+	// per second capture (by name), filled by the goroutine that ran the stage-2 process BEFORE the third process touches the capture
+	capIdx map[string][]byte // blockchain.new of the capture
+	capDat map[string]int64  // length of the data file datFn in the capture (-1 = missing)
+	third  map[string]*ChildRes
 }
 
 // posTie compares the FILE POSITIONS of the real block store with the positional Lean model (Model/PersistPos.lean, oracle op
@@ -454,14 +570,13 @@ func (h *Harness) posTie(w Workload, c *s2case, sc SecondCap) {
 		h.rollTie2(w, c, sc) // several data files: Model/PersistRoll.lean
 		return
 	}
-	capDir := strings.TrimRight(c.dir, "/") + ".s2/" + sc.Name + "/"
-	idx, err := os.ReadFile(capDir + "blockchain.new")
-	if err != nil || len(c.idx0)%136 != 0 || len(idx)%136 != 0 || len(idx) < len(c.idx0) {
+	idx, have := c.capIdx[sc.Name]
+	if !have || len(c.idx0)%136 != 0 || len(idx)%136 != 0 || len(idx) < len(c.idx0) {
 		r.Hit("pos-tie:skipped")
 		return
 	}
-	st, err := os.Stat(capDir + c.datFn)
-	if err != nil {
+	stSize := c.capDat[sc.Name]
+	if stSize < 0 {
 		r.Hit("pos-tie:skipped")
 		return
 	}
@@ -493,7 +608,7 @@ func (h *Harness) posTie(w Workload, c *s2case, sc SecondCap) {
 		}
 		real = append(real, fmt.Sprintf("%d:%d:%d", ids[key], fpos, blen))
 	}
-	want := fmt.Sprintf("ok %d 1", st.Size())
+	want := fmt.Sprintf("ok %d 1", stSize)
 	if len(real) > 0 {
 		want += " " + strings.Join(real, " ")
 	}
@@ -591,27 +706,57 @@ func (c *s2case) readStart() {
 	}
 }
 
-func (h *Harness) stage2Run(w Workload, wr *WlRun, blocksFile string, cs []*s2case, onlySecond string) {
-	r := h.r
-	if len(cs) == 0 {
-		return
-	}
-	var wg sync.WaitGroup
-	sem := make(chan bool, 12)
-	for _, c := range cs {
-		wg.Add(1)
-		sem <- true
+// stage2Start (phase A): the stage-2 process of every case, and - as soon as it has finished - the third process of each of its captures
+func (h *Harness) stage2Start(p *pending) {
+	for _, c := range p.s2 {
+		c.capIdx, c.capDat, c.third = map[string][]byte{}, map[string]int64{}, map[string]*ChildRes{}
+		p.wg.Add(1)
 		go func(c *s2case) {
-			defer wg.Done()
+			defer p.wg.Done()
 			mode := "stage2"
 			if c.all {
 				mode = "stage2all"
 			}
-			c.res = runChild(mode, c.dir, blocksFile)
-			<-sem
+			c.res = runChild(p.env, mode, c.dir, p.blocksFile)
+			pre := ""
+			if c.trunc {
+				pre = "t"
+			}
+			var wg sync.WaitGroup
+			var mu sync.Mutex
+			for _, sc := range c.res.Second {
+				capDir := strings.TrimRight(c.dir, "/") + ".s2/" + sc.Name + "/"
+				if b, err := os.ReadFile(capDir + "blockchain.new"); err == nil {
+					c.capIdx[sc.Name] = b
+				}
+				c.capDat[sc.Name] = -1
+				if st, err := os.Stat(capDir + c.datFn); err == nil {
+					c.capDat[sc.Name] = st.Size()
+				}
+				if p.onlySecond != "" && pre+sc.Name != p.onlySecond {
+					continue
+				}
+				wg.Add(1)
+				go func(sc SecondCap, capDir string) {
+					defer wg.Done()
+					res := runChild(p.env, "client", capDir, p.blocksFile)
+					mu.Lock()
+					c.third[sc.Name] = res
+					mu.Unlock()
+				}(sc, capDir)
+			}
+			wg.Wait()
 		}(c)
 	}
-	wg.Wait()
+}
+
+// stage2Run (phase B, after p.wg): position ties and the judgement of every third process
+func (h *Harness) stage2Run(p *pending) {
+	r := h.r
+	w, wr, cs := p.w, p.wr, p.s2
+	if len(cs) == 0 {
+		return
+	}
 	type j2 struct {
 		c   *s2case
 		cap SecondCap
@@ -620,15 +765,10 @@ func (h *Harness) stage2Run(w Workload, wr *WlRun, blocksFile string, cs []*s2ca
 	var jobs []*j2
 	for _, c := range cs {
 		h.nChild++
-		pre := ""
-		if c.trunc {
-			pre = "t"
-		}
 		for _, sc := range c.res.Second {
-			if onlySecond != "" && pre+sc.Name != onlySecond {
-				continue
+			if res, ok := c.third[sc.Name]; ok {
+				jobs = append(jobs, &j2{c: c, cap: sc, res: res})
 			}
-			jobs = append(jobs, &j2{c: c, cap: sc})
 		}
 		if len(c.res.Second) == 0 {
 			r.Hit("second-crash:first-restart-did-not-continue")
@@ -637,16 +777,6 @@ func (h *Harness) stage2Run(w Workload, wr *WlRun, blocksFile string, cs []*s2ca
 			h.posTie(w, c, sc)
 		}
 	}
-	for _, j := range jobs {
-		wg.Add(1)
-		sem <- true
-		go func(j *j2) {
-			defer wg.Done()
-			j.res = runChild("client", strings.TrimRight(j.c.dir, "/")+".s2/"+j.cap.Name+"/", blocksFile)
-			<-sem
-		}(j)
-	}
-	wg.Wait()
 	for _, j := range jobs {
 		h.nChild++
 		first := j.c.hit.Name
@@ -665,8 +795,25 @@ func (h *Harness) stage2Run(w Workload, wr *WlRun, blocksFile string, cs []*s2ca
 
 // ------------------------------------------------------------------------------------------ truncations
 
-func (h *Harness) truncations(w Workload, wr *WlRun, blocksFile string, mdl *Model) {
+type tj struct {
+	file  string
+	n     int
+	noOld bool // UTXO.db cases: UTXO.old removed as well (nothing to fall back to: the node must start over from genesis)
+	res   *ChildRes
+	dir   string
+}
+
+type truncSet struct {
+	jobs    []*tj
+	idx     []byte
+	nrec    int
+	datName string
+}
+
+// truncStart (phase A): the cut copies of the cleanly closed directory and their fresh processes
+func (h *Harness) truncStart(p *pending) {
 	r := h.r
+	w, wr, blocksFile := p.w, p.wr, p.blocksFile
 	final := wr.Dir // live dir after clean close
 	idx, err := os.ReadFile(final + "blockchain.new")
 	if err != nil {
@@ -678,13 +825,6 @@ func (h *Harness) truncations(w Workload, wr *WlRun, blocksFile string, mdl *Mod
 	}
 	dat, _ := os.ReadFile(final + datName)
 	nrec := len(idx) / 136
-	type tj struct {
-		file  string
-		n     int
-		noOld bool // UTXO.db cases: UTXO.old removed as well (nothing to fall back to: the node must start over from genesis)
-		res   *ChildRes
-		dir   string
-	}
 	var jobs []*tj
 	first := baseLen - 2
 	if r.Thorough() {
@@ -694,6 +834,11 @@ func (h *Harness) truncations(w Workload, wr *WlRun, blocksFile string, mdl *Mod
 		for _, off := range []int{0, 1, 55, 135} {
 			n := rec*136 + off
 			if n > len(idx) || (off != 0 && (rec == nrec || (!r.Thorough() && rec%2 == 0))) {
+				continue
+			}
+			// thorough: below the base tip every record boundary, the mid-record cuts at every fourth record (the records of the
+			// pre-built base chain are all alike: coinbase-only blocks stored by one run)
+			if off != 0 && rec < baseLen-4 && rec%4 != 1 {
 				continue
 			}
 			jobs = append(jobs, &tj{file: "blockchain.new", n: n})
@@ -723,13 +868,15 @@ func (h *Harness) truncations(w Workload, wr *WlRun, blocksFile string, mdl *Mod
 		}
 		jobs = append(jobs, &tj{file: "UTXO.db", n: 20, noOld: true}, &tj{file: "UTXO.db", n: L - 10, noOld: true})
 	}
-	var wg sync.WaitGroup
-	sem := make(chan bool, 12)
+	p.trunc = &truncSet{jobs: jobs, idx: idx, nrec: nrec, datName: datName}
+	// a private, settled copy of the closed directory: the live directory is gone when the workload's phase B ends, not before -
+	// but the copies below are taken by goroutines that run while later workloads are driven
+	sem := make(chan bool, childPar)
 	for i, j := range jobs {
-		wg.Add(1)
-		sem <- true
+		p.wg.Add(1)
 		go func(i int, j *tj) {
-			defer wg.Done()
+			defer p.wg.Done()
+			sem <- true
 			j.dir = fmt.Sprintf("%s/%s/trunc%04d/", h.root, w.Name, i)
 			copyTree(final, j.dir)
 			if j.file == "UTXO.db" {
@@ -743,12 +890,21 @@ func (h *Harness) truncations(w Workload, wr *WlRun, blocksFile string, mdl *Mod
 				}
 			}
 			os.Truncate(j.dir+j.file, int64(j.n))
-			j.res = runChildT("client", j.dir, blocksFile, truncWatchdog)
-			os.RemoveAll(j.dir)
 			<-sem
+			j.res = runChildT(p.env, "client", j.dir, blocksFile, truncWatchdog)
+			os.RemoveAll(j.dir)
 		}(i, j)
 	}
-	wg.Wait()
+}
+
+// truncations (phase B, after p.wg): the judgement of every cut
+func (h *Harness) truncations(p *pending, mdl *Model) {
+	r := h.r
+	w, wr := p.w, p.wr
+	if p.trunc == nil {
+		return
+	}
+	jobs, idx, nrec, datName := p.trunc.jobs, p.trunc.idx, p.trunc.nrec, p.trunc.datName
 	// index record of the block UTXO.db was written for (the final tip)
 	tipRec := -1
 	for rec := 0; rec < nrec; rec++ {
@@ -879,7 +1035,7 @@ func (h *Harness) foreignUndoOnPath(c *ChildRes, target string) bool {
 	// chain) whose undo file belongs to another block
 	fork := c.S1.Tip
 	for !h.ref.isAncestorOrEqual(fork, target) {
-		b := h.ref.blocks[fork]
+		b := h.ref.blk(fork)
 		if b == nil {
 			return false
 		}
@@ -909,7 +1065,7 @@ func (h *Harness) blockTok(m *Model, raw []byte, next *int) string {
 	bl.BuildTxList()
 	hash := hex.EncodeToString(bl.Hash.Hash[:])
 	par := hex.EncodeToString(bl.ParentHash())
-	rb := h.ref.blocks[hash]
+	rb := h.ref.blk(hash)
 	id := len(m.blockID) + 1
 	m.blockID[hash] = id
 	m.idBlock[id] = hash
@@ -1180,6 +1336,7 @@ func (h *Harness) replay() {
 	}
 	ws = append(ws, wideWorkloads(&rr, r.Rng.Fork())...)
 	ws = append(ws, missWorkloads(&rr, r.Rng.Fork())...)
+	ws = append(ws, miss4Workloads(&rr, r.Rng.Fork())...)
 	for _, w := range ws {
 		if w.Name == c.Workload {
 			onlyPoint, onlyPIdx = c.Point, c.PIdx
